@@ -279,13 +279,14 @@ theorem C18_cfg_run_is_mir_run (callF : CallF) (P : Prog) (f : Fn) (hc : f.cache
   rw [C18_dispatch_loop_eq_cfg (mirSem callF P f) f.cfg body h n s, runBlocksM_eq_runCfg callF P f hc n 0 0 s]
 
 /-- One call of function `fi` in the MIR semantics is the emitted dispatch loop of its skeleton, run from the entered frame
-with the callee semantics of one unit less fuel. -/
+with the callee semantics of one unit less fuel; on return the still-open upvalue cells that point into the frame are closed
+(`closeFrame` = `Machine::close_frame_upvalues`, /repo bdbbb70). -/
 theorem C18_fn_run_is_dispatch_loop (P : Prog) (n fi : Nat) (f : Fn) (hf : P.fns[fi]? = some f) (hc : f.cacheOk) (body : Body)
     (h : encode f.cfg = some body) (ws : List UInt64) (clo : Option Nat) (g : Glob) (st : St) (tr : List Layout.Access) :
     runFn P (n + 1) fi ws clo g st tr =
       match runBody (mirSem (runFn P n) P f) body (f.blocks.length + 1)
           ⟨(enterFrame f fi clo g ws).1, (enterFrame f fi clo g ws).2, st, tr⟩ with
-      | .ret (.ok (out, s)) => .ok (out, s.g, s.st, s.tr)
+      | .ret (.ok (out, s)) => .ok (out, closeFrame g.mem.size s.g, s.st, s.tr)
       | .ret (.error e) => .error e
       | .panic => (match runBlocksM (runFn P n) P f (f.blocks.length + 1) 0 0
                       ⟨(enterFrame f fi clo g ws).1, (enterFrame f fi clo g ws).2, st, tr⟩ with
